@@ -331,6 +331,7 @@ func TestDurationParse(t *testing.T) {
 
 // Exhaustive sweep of all short strings over the alphabet.
 func TestDurationShortStrings(t *testing.T) {
+	pbt.Register(pbt.Prop[strCase]{Name: "duration-short-strings", Check: checkDurationString})
 	if pbt.ReplayPath != "" {
 		t.Skip()
 	}
@@ -388,7 +389,6 @@ func TestDurationShortStrings(t *testing.T) {
 		}(w)
 	}
 	wg.Wait()
-	pbt.Register(pbt.Prop[strCase]{Name: "duration-short-strings", Check: checkDurationString})
 	if c := firstBad.Load(); c != nil {
 		pbt.ReportViolation(t, "duration-short-strings", *c, *badErr.Load())
 		return
